@@ -663,18 +663,28 @@ pub(super) fn get_requirements(
             // Since there is aggregation anyway, columns can have any complexity
             .allow_up_to(Complexity::highest()),
 
-        Super(Transform::Take(rq::Take { range, sort, .. })) => [&range.start, &range.end]
-            .into_iter()
-            .flatten()
-            .map(Requirements::from_expr)
-            .fold(Requirements::default(), Requirements::append)
-            // the sort embedded in the take becomes the ORDER BY of this SELECT (postprocess),
-            // which refers to SELECTed columns: require its keys like those of a Sort
-            .append(
-                Requirements::from_cids(sort.iter().map(|s| &s.column))
-                    .allow_up_to(Complexity::Aggregation)
-                    .should_select(true),
-            ),
+        Super(Transform::Take(rq::Take { range, sort, .. })) => {
+            let range = [&range.start, &range.end]
+                .into_iter()
+                .flatten()
+                .map(Requirements::from_expr)
+                .fold(Requirements::default(), Requirements::append);
+            if following.contains("Distinct") {
+                // a DISTINCT of this SELECT drops the sorting (postprocess clears it), so no
+                // ORDER BY will name the keys; SELECTing them would make them columns of the
+                // SELECT DISTINCT, and duplicates of the distinct columns would survive
+                range
+            } else {
+                // the sort embedded in the take becomes the ORDER BY of this SELECT
+                // (postprocess), which refers to SELECTed columns: require its keys like
+                // those of a Sort
+                range.append(
+                    Requirements::from_cids(sort.iter().map(|s| &s.column))
+                        .allow_up_to(Complexity::Aggregation)
+                        .should_select(true),
+                )
+            }
+        }
 
         SqlTransform::Join { filter, .. } => Requirements::from_expr(filter),
 
